@@ -24,6 +24,9 @@ LOGS = {
     "octave": "measured.Octave", "semitone": "measured.music.Semitone",
     "centibel": "(measured.si.Centi * measured.Bel)", "millineper": "(measured.si.Milli * measured.Neper)",
     "kibioctave": "(measured.iec.Kibi * measured.Octave)",
+    # bases that no dedicated math function covers
+    "base3": "measured.Logarithm(3)", "base1.5": "measured.Logarithm(1.5)",
+    "decibase7": "(measured.si.Deci * measured.Logarithm(7))",
 }
 # (reference, unit the quantity is written in, power(1) / root-power(2) by physics)
 REFS = [
@@ -157,8 +160,9 @@ def worker(task: List[Tuple]) -> Dict[str, Any]:
             ask(p.cond, absz(arg1 - want_arg) <= atol * want_arg, "log-argument", "argument")
             # (2) magnitude == (k/prefix) * ln(arg)/ln(base), syntactically over ln
             lnb = LN(z3.simplify(real(symnum.q(base))))
+            e_is_e = LN(symnum.E_CONST) == 1
             closed = symnum.q(Fraction(k_phys) / pv) * LN(z3.simplify(arg1)) / lnb
-            ask(z3.And(p.cond, lnb != 0), absz(real(m1.t) - closed) <= symnum.q(REL) * absz(closed),
+            ask(z3.And(p.cond, lnb != 0, e_is_e), absz(real(m1.t) - closed) <= symnum.q(REL) * absz(closed),
                 "closed-form", "closed-form")
             # (3) strictly increasing
             ask(z3.And(p.cond, X < X2), real(m1.t) < real(m2.t), "strictly-increasing", "monotone")
@@ -208,14 +212,14 @@ def worker(task: List[Tuple]) -> Dict[str, Any]:
                                             f"{p.outcome} in quantity->level for {label}", rp))
                     continue
                 m = p.result
-                ask(z3.And(p.cond, lnb != 0), absz(real(m.t) - L) <= symnum.q(Fraction(1, 2 ** 46)) * absz(L),
+                ask(z3.And(p.cond, lnb != 0, e_is_e), absz(real(m.t) - L) <= symnum.q(Fraction(1, 2 ** 46)) * absz(L),
                     f"level-quantity-level#p{i}", "level-round-trip")
             acc.sample({"config": label, "k": k_phys, "prefix": str(pv), "base": base})
     return acc.finish()
 
 
 def tasks_for(tier: str) -> List[List[Tuple]]:
-    names = list(LOGS) if tier == "thorough" else ["bel", "decibel", "neper", "octave", "semitone", "centibel"]
+    names = list(LOGS) if tier == "thorough" else ["bel", "decibel", "neper", "octave", "semitone", "centibel", "base3"]
     refs = REFS if tier == "thorough" else REFS[:9]
     cfgs = [(ln_, rc, qc, k) for ln_ in names for (rc, qc, k) in refs]
     return [ch for ch in par.chunks(cfgs, 32)]
